@@ -12,5 +12,7 @@ Theorem range_arms_agree o R len :
 Proof.
   destruct o as [rel all neg lim w]. unfold interp_range, search_range.
   destruct neg; [reflexivity|].
-  destruct rel, lim as [lim|], w; reflexivity.
+  destruct rel, lim as [lim|], w; try reflexivity.
+  (* arms whose bounds are written differently (1 + x for x + 1, ...) *)
+  all: cbn; repeat match goal with |- context [?a <=? ?b] => destruct (a <=? b) end; repeat f_equal; lia.
 Qed.
